@@ -28,9 +28,10 @@ type verifC10Req struct {
 }
 
 type verifC10Obs struct {
-	Panic                  string      `json:"panic,omitempty"` // the handler panicked
-	BackendCookies         [][2]string `json:"backend_cookies"` // name, value pairs the backend saw, in order
-	ClientSet              []string    `json:"client_set"`      // Set-Cookie header values the client received
+	ExpiresInMs            int64       `json:"expires_in_ms,omitempty"` // lifetime left on the session cookie just issued
+	Panic                  string      `json:"panic,omitempty"`         // the handler panicked
+	BackendCookies         [][2]string `json:"backend_cookies"`         // name, value pairs the backend saw, in order
+	ClientSet              []string    `json:"client_set"`              // Set-Cookie header values the client received
 	IssuedValue            string      `json:"issued_value"`
 	Status                 int         `json:"status"`
 	SessionCookieAtBackend bool        `json:"session_cookie_at_backend"`
@@ -84,6 +85,7 @@ func verifRunHistory(h http.Handler, cookieName string, reqs []verifC10Req, cur 
 			if c.Name == cookieName {
 				o.IssuedValue = c.Value
 				issued[i] = c.Value
+				o.ExpiresInMs = time.Until(c.Expires).Milliseconds()
 			}
 		}
 		if b := rec.Header().Get("X-Verif-Backend-Cookies"); b != "" {
@@ -137,6 +139,10 @@ func TestVerifC10(t *testing.T) {
 		})
 		c := NewCache(cookieName, time.Hour, limit, hi%2 == 0)
 		h := c.SessionHandler(backend, nil)
+		if hi == 1 {
+			// an agent that has been up for a while when its first client arrives
+			time.Sleep(2500 * time.Millisecond)
+		}
 		n := 2 + rng.intn(14)
 		var reqs []verifC10Req
 		var issuedAt []int // requests that got a session cookie
